@@ -19,6 +19,9 @@ LATER = {
     'block-comment': "/* a {Q} here */\n",
     'next-literal': "Table u {{\n  id int [note: {Q}fine{Q}]\n}}\n",
     'none': "",
+    # a comment holding the quote, followed by a copy of what follows the literal at its site: if the
+    # literal swallowed everything up to that quote, the rest of the document would again be well-formed
+    'resume': None,
 }
 
 
@@ -27,7 +30,7 @@ class OpenString(BObl):
     property = 'C07'
     rule = ('a well-formed document in which one single-line string literal lost its closing quote; a later quote '
             'character of the same kind may follow on another line; the parse must raise a pyparsing error')
-    bound = 'exhaustive: 7 literal sites x {single, double} quote x 4 kinds of later text'
+    bound = 'exhaustive: 7 literal sites x {single, double} quote x 5 kinds of later text'
 
     def cases(self, tier, seed):
         for site in SITES:
@@ -42,8 +45,13 @@ class OpenString(BObl):
         import pyparsing as pp
         from pydbml import PyDBML
         q = r['quote']
-        text = SITES[r['site']].format(OPEN=q + 'abc', LATER=LATER[r['later']].format(Q=q))
-        closed = SITES[r['site']].format(OPEN=q + 'abc' + q, LATER=LATER[r['later']].format(Q=q))
+        if r['later'] == 'resume':
+            rest = SITES[r['site']].split('{OPEN}')[1].replace('{LATER}', '').format()
+            later = '// x ' + q + rest
+        else:
+            later = LATER[r['later']].format(Q=q)
+        text = SITES[r['site']].format(OPEN=q + 'abc', LATER=later)
+        closed = SITES[r['site']].format(OPEN=q + 'abc' + q, LATER='' if r['later'] == 'resume' else later)
         try:
             PyDBML(closed)
         except Exception as e:
